@@ -38,6 +38,8 @@ func Spaces(tier string) []Space {
 			{"L2s-pattern", alphaL2s, "pattern ", ";", 6, 2},
 			{"L2s-tab", alphaL2s, "\tk ", ";", 6, 2},
 			{"L1b", alphaL1b, "", "", 6, 2},
+			{"L2s-mbc", alphaL2s, "k /*é*/", ";", 6, 2},
+			{"L2s-mbq", alphaL2s, "k 'é'+", ";", 6, 2},
 		}
 	}
 	return []Space{
@@ -47,6 +49,9 @@ func Spaces(tier string) []Space {
 		{"L2s-pattern", alphaL2s, "pattern ", ";", 5, 2},
 		{"L2s-tab", alphaL2s, "\tk ", ";", 5, 2},
 		{"L1b", alphaL1b, "", "", 5, 2},
+		// a multi-byte rune in a comment or single-quoted piece on the line of an opening quote
+		{"L2s-mbc", alphaL2s, "k /*é*/", ";", 5, 2},
+		{"L2s-mbq", alphaL2s, "k 'é'+", ";", 5, 2},
 	}
 }
 
